@@ -310,6 +310,9 @@ def gen_e2e(rng):
     for x in ids:
         if rng.random() < 0.4:
             guard_of[x] = rng.choice(flags)
+        elif rng.random() < 0.12:
+            # a guard that is a constant computed when the method was written (numpy truth values included)
+            guard_of[x] = rng.choice(["@False", "@numpy.False_", "@numpy.True_", "@numpy.False_"])
     enders = {}
     for x in rng.sample(ids, rng.randint(0, min(2, len(ids)))):
         enders[x] = rng.choice(["fail", "switch"])
@@ -346,7 +349,11 @@ def check_e2e(case, rec, hang_s=30.0):
         if tend:
             deps.add("adv_t")
         cond = True
-        if x in case["guard_of"]:
+        if x in case["guard_of"] and case["guard_of"][x].startswith("@"):
+            import numpy as _np
+            cond = {"@False": False, "@numpy.False_": _np.float64(0.5) > 1, "@numpy.True_": _np.float64(0.5) < 1}[
+                case["guard_of"][x]]
+        elif x in case["guard_of"]:
             cond = var("<cond>" + case["guard_of"][x])
             deps.add("set_" + case["guard_of"][x])
         # (every third statement gets its dependencies as a one-shot iterable: the constructor takes any iterable)
@@ -423,7 +430,12 @@ def check_e2e(case, rec, hang_s=30.0):
         on = {f: fl[j] for j, f in enumerate(case["flags"])}
 
         def guard(x):
-            return on[case["guard_of"][x]] if x in case["guard_of"] else True
+            gname = case["guard_of"].get(x)
+            if gname is None:
+                return True
+            if gname.startswith("@"):
+                return gname == "@numpy.True_"
+            return on[gname]
         active_enders = [x for x in case["enders"] if guard(x)]
         rec.count("visits_checked", len(got))
         if len(set(got)) != len(got):
